@@ -378,6 +378,7 @@ func confTreeOK() bool {
 //@   ensures ki.KeyIsPath && err == nil && len(ki.StringKey) < Conf.TreeDepth ==> ki.BucketID == -1
 //@   ensures ki.KeyIsPath && err == nil && len(ki.StringKey) >= Conf.TreeDepth ==> ki.BucketID == specBucket(ki.KeyHash, Conf.TreeDepth) && 0 <= ki.BucketID && ki.BucketID < Conf.NumBucket
 //@   ensures ki.KeyIsPath && err == nil ==> len(ki.KeyPath) == len(ki.StringKey)
+//@   ensures !ki.KeyIsPath ==> err == nil && ki.KeyHash == old(ki.KeyHash)      // (stated separately, free of arithmetic: usable from callers verified over mathematical integers)
 //@   loop 1 unroll
 
 // CRC stored in a record: over header[4:24], key, value, with init/final complement
